@@ -338,7 +338,7 @@ def dd_ge_inputs(p):
     (_, j1), (_, j2) = _channel(p, 0), _channel(p, 1)
     a = _dd(j1, j2)
     rng = np.random.default_rng([p.get("seed", 0), d, 53])
-    for n, rho in enumerate(_inputs(d, rng, 6)):
+    for n, rho in enumerate(_inputs(d, rng, 8)[1:]):
         lo = _tn(_apply_ext(j1 - j2, rho, d, d))
         if not a >= lo - TOL_CVXOPT:
             raise Violation("diamond_distance = %.8f < ||((Phi-Psi) x id)(rho)||_1 = %.8f on input state #%d (d=%d, %s)" % (a, lo, n, d, p["kinds"]))
@@ -459,7 +459,7 @@ def cbtn_homogeneous(p):
 
 
 def cbtn_ge_choi(p):
-    """cb trace norm >= ||J||_1 / d and >= the trace norm of the output on concrete input states"""
+    """cb trace norm >= ||J||_1 / d"""
     from vt.contract import Violation
 
     d = p["d"]
@@ -467,11 +467,20 @@ def cbtn_ge_choi(p):
     a, lo = _cbtn(j), _tn(j) / d
     if not a >= lo - TOL_CVXOPT * max(1, lo):
         raise Violation("cb trace norm = %.8f < ||J||_1 / d = %.8f (%s map, d=%d)" % (a, lo, p["kind"], d))
+
+
+def cbtn_ge_inputs(p):
+    """cb trace norm >= || (Phi (x) id)(rho) ||_1 on concrete input states rho (feasible points of the sup in the definition)"""
+    from vt.contract import Violation
+
+    d = p["d"]
+    j, _ = _map(p)
+    a = _cbtn(j)
     rng = np.random.default_rng([p.get("seed", 0), d, 59])
-    for n, rho in enumerate(_inputs(d, rng, 6)):
+    for n, rho in enumerate(_inputs(d, rng, 8)[1:]):
         lo = _tn(_apply_ext(j, rho, d, d))
         if not a >= lo - TOL_CVXOPT * max(1, lo):
-            raise Violation("cb trace norm = %.8f < ||(Phi x id)(rho)||_1 = %.8f on input state #%d (%s map, d=%d)" % (a, lo, n, p["kind"], d))
+            raise Violation("cb trace norm = %.8f < ||(Phi x id)(rho)||_1 = %.8f on input state #%d (%s map, d=%d)" % (a, lo, n + 1, p["kind"], d))
 
 
 def cbtn_le_choi(p):
@@ -577,20 +586,35 @@ def cf_equal_one(p):
 
 
 def cf_le_choi(p):
-    """channel_fidelity <= root fidelity of the normalised Choi states (and of the outputs on any other concrete input state)"""
+    """channel_fidelity <= root fidelity of the normalised Choi states"""
     from vt.contract import Violation
 
     d = p["d"]
     (_, j1), (_, j2) = _channel(p, 0), _channel(p, 1)
     a = _cf(j1, j2)
     hi = _root_fidelity(j1 / d, j2 / d)
-    if not a <= hi + TOL_SCS:
+    if not a <= hi + _cf_tol(hi):
         raise Violation("channel_fidelity = %.6f > fidelity of the normalised Choi states %.6f (d=%d, %s)" % (a, hi, d, p["kinds"]))
+
+
+def cf_le_inputs(p):
+    """channel_fidelity <= root fidelity of the two outputs on concrete input states (feasible points of the inf in the definition)"""
+    from vt.contract import Violation
+
+    d = p["d"]
+    (_, j1), (_, j2) = _channel(p, 0), _channel(p, 1)
+    a = _cf(j1, j2)
     rng = np.random.default_rng([p.get("seed", 0), d, 61])
-    for n, rho in enumerate(_inputs(d, rng, 6)):
+    for n, rho in enumerate(_inputs(d, rng, 8)[1:]):
         hi = _root_fidelity(_apply_ext(j1, rho, d, d), _apply_ext(j2, rho, d, d))
-        if not a <= hi + TOL_SCS:
-            raise Violation("channel_fidelity = %.6f > fidelity %.6f of the two outputs on input state #%d (d=%d, %s)" % (a, hi, n, d, p["kinds"]))
+        if not a <= hi + _cf_tol(hi):
+            raise Violation("channel_fidelity = %.6f > fidelity %.6f of the two outputs on input state #%d (d=%d, %s)" % (a, hi, n + 1, d, p["kinds"]))
+
+
+def _cf_tol(expected):
+    """SCS tolerance for the root channel fidelity; near the value 0 the fidelity SDP turns a feasibility error e of the solver
+    (eps = 1e-7) into sqrt(e) in the optimum (observed 1e-3 on orthogonal unitary channels, also with the operator-inequality form)"""
+    return TOL_SCS if expected > 0.05 else 5e-3
 
 
 def cf_unitary_ge(p):
@@ -600,7 +624,7 @@ def cf_unitary_ge(p):
     d = p["d"]
     u, v, delta = _unitary_pair(p)
     a = _cf(_choi([u], d), _choi([v], d))
-    if not a >= delta - TOL_SCS:
+    if not a >= delta - _cf_tol(delta):
         raise Violation("unitary channels: channel_fidelity = %.6f < delta = %.6f = inf over inputs of the output fidelity (d=%d, phases %s, diagonal=%s)" % (a, delta, d, p.get("phases"), bool(p.get("diagonal"))))
 
 
@@ -611,7 +635,7 @@ def cf_unitary_le(p):
     d = p["d"]
     u, v, delta = _unitary_pair(p)
     a = _cf(_choi([u], d), _choi([v], d))
-    if not a <= delta + TOL_SCS:
+    if not a <= delta + _cf_tol(delta):
         raise Violation("unitary channels: channel_fidelity = %.6f > delta = %.6f (d=%d, phases %s)" % (a, delta, d, p.get("phases")))
 
 
@@ -696,6 +720,7 @@ CLAUSES = {
     "cbtn.cp_le_opnorm": cbtn_cp_le,
     "cbtn.homogeneous": cbtn_homogeneous,
     "cbtn.ge_choi_normalised": cbtn_ge_choi,
+    "cbtn.ge_concrete_inputs": cbtn_ge_inputs,
     "cbtn.le_choi_unnormalised": cbtn_le_choi,
     "cbtn.solver": cbtn_solver,
     "cbsn.eq_cbtn_of_dual": cbsn_dual,
@@ -704,6 +729,7 @@ CLAUSES = {
     "cf.symmetric": cf_symmetric,
     "cf.equal_one": cf_equal_one,
     "cf.le_choi_fidelity": cf_le_choi,
+    "cf.le_concrete_inputs": cf_le_inputs,
     "cf.unitary_pair_ge": cf_unitary_ge,
     "cf.unitary_pair_le": cf_unitary_le,
     "cf.pauli_ge": cf_pauli_ge,
@@ -713,7 +739,7 @@ CLAUSES = {
 _FN = {"dd": "diamond_distance", "cbtn": "completely_bounded_trace_norm", "cbsn": "completely_bounded_spectral_norm", "cf": "channel_fidelity", "cfos": "channel_metrics.fidelity_of_separability"}
 for _k, _f in CLAUSES.items():
     _f.function = _FN[_k.split(".")[0]]
-    _f.limit = 100 if _k.startswith("cf") else 60
+    _f.limit = 100 if _k.startswith("cf.") else (30 if _k.startswith("cfos") else 60)
 
 
 def cases(tier, seed):
@@ -791,6 +817,7 @@ def cases(tier, seed):
             for s in seeds + [seed + 50]:
                 prm = dict(d=d, kind=kind, seed=s)
                 add("cbtn.ge_choi_normalised", prm, "cbtn/%s/d=%d" % (kind, d))
+                add("cbtn.ge_concrete_inputs", prm, "cbtn/%s/d=%d" % (kind, d))
                 add("cbtn.le_choi_unnormalised", prm, "cbtn/%s/d=%d" % (kind, d))
         for kind in ("channel-difference", "hermitian-preserving", "cptp", "cp"):
             add("cbtn.solver", dict(d=d, kind=kind, seed=seed, solver="cvxopt"), "cbtn/solver-cvxopt/%s/d=%d" % (kind, d))
@@ -813,6 +840,7 @@ def cases(tier, seed):
         for s in seeds:
             prm = dict(d=2, kinds=list(kinds), seed=s)
             add("cf.le_choi_fidelity", prm, cls)
+            add("cf.le_concrete_inputs", prm, cls)
             if thorough or kinds in (("cptp", "cptp"), ("unitary", "mixed-unitary"), ("cptp", "replacer")):
                 add("cf.symmetric", prm, cls)
     cf_pairs3 = [("cptp", "cptp"), ("pauli", "pauli")] + ([("unitary", "mixed-unitary"), ("cptp", "replacer")] if thorough else [])
@@ -820,6 +848,8 @@ def cases(tier, seed):
         cls = "cf/%s-vs-%s/d=3" % kinds
         prm = dict(d=3, kinds=list(kinds), seed=seed)
         add("cf.le_choi_fidelity", prm, cls)
+        if thorough or kinds == ("cptp", "cptp"):
+            add("cf.le_concrete_inputs", prm, cls)
         if thorough:
             add("cf.symmetric", prm, cls)
     for d in (2, 3):
